@@ -6,6 +6,9 @@ PROGS = ["S0:5", "T0:7", "G0", "X0", "T0:7 G0", "S0:5 X0", "G0 T0:9 G0", "f0 S1:
          "l0 S1:3 G1", "l0 T1:4", "c0:1 T1:6 G1", "S0:5 S0:6", "S0:5 G0 S0:6", "G0 G0", "T0:8 G0 G0"]
 
 
+LPROGS = ["S0:5 X0 G0 T0:9", "S0:6", "X0 G0", "S0:5 S0:6 G0", "T0:7 X0 T0:8", "G0 T0:9 G0", "X0", "S0:1 X0 S0:2 X0", "G0 G0", "T0:3 G0 X0 G0"]
+
+
 class C18(ConcBase):
     id = "C18"
     design_ref = "DESIGN.md section 5 / C18"
@@ -27,9 +30,30 @@ class C18(ConcBase):
     miri_programs = ["data"]
 
     def cases(self, tier, seed):
-        return self.gen(tier, seed, PROGS, 18)
+        res = self.gen(tier, seed, PROGS, 18)
+        # `U` cases: the destructor of a stored value is user code and may take arbitrarily long, so it is a scheduling
+        # point of its own (the machine's step is atomic: the claim is C18_data_linearizable; checked by the
+        # linearizability search only)
+        from .core import Rng
+        rng = Rng(seed + 118)
+        L, sw = (14, 2) if tier == "quick" else (18, 3)
+        scheds = CR.schedules(L, 2, sw)
+        pairs = [(a, b) for a in LPROGS for b in LPROGS]
+        take = 24 if tier == "quick" else len(pairs)
+        for k in range(take):
+            a, b = pairs[(k * 7) % len(pairs)]
+            for sc in scheds:
+                res.append(("exhaustive", "U %s | %s // %s | %s" % (self.trees[0], a, b, " ".join(map(str, sc)))))
+        for _ in range(300 if tier == "quick" else 6000):
+            n = 2 + rng.below(2)
+            ps = [rng.choice(LPROGS) for _ in range(n)]
+            sc = [rng.below(n) for _ in range(40)]
+            res.append(("random", "U %s | %s | %s" % (self.trees[0], " // ".join(ps), " ".join(map(str, sc)))))
+        return res
 
     def project(self, line):
+        if line.startswith("UY "):
+            return "ok"
         p = line.split(" || ")
         if len(p) != 3:
             return line
@@ -42,6 +66,10 @@ class C18(ConcBase):
     def spec_raw(self, case, raw):
         if case.startswith("M "):
             return None if raw == "ok" else "Miri on program `%s`: %s" % (case.split(" ")[1], raw)
+        if case.startswith("U "):
+            if not raw.startswith("UY "):
+                return "malformed output: " + raw[:200]
+            return CR.check_c18("K" + case[1:], raw[3:])
         return CR.check_c18(case, raw)
 
     def nontrivial(self, case, impl):
